@@ -346,22 +346,24 @@ Qed.
 
 (* ------------------------------------------------------------------------------------------- *)
 (* The selection sets on which the generator's _resolve_selection_set (against root r) and the     *)
-(* executor's CollectFields (for the runtime OBJECT type rt) flatten fragments to the same fields. *)
-(* Fragments must be unconditional (F3) and every type condition must be judged alike by both      *)
-(* sides (F4); spreads must be of the unpacked kind (mixin spreads become base classes).           *)
+(* executor's CollectFields (for the runtime OBJECT type rt) treat fragments alike: unconditional   *)
+(* (F3), every type condition judged alike by both sides (F4); unpacked spreads and inline          *)
+(* fragments are flattened by both; a spread the generator turns into a mixin base class is         *)
+(* recorded (second component) — the executor collects its fields in place.                        *)
 
-Definition flatten_step (rec : string -> list sel -> option (list fnode))
+Definition flattenM_step (rec : string -> list sel -> option (list fnode * list string))
            (S : schema) (frs : list fragdef) (rt r : string)
-           (acc : option (list fnode)) (s : sel) : option (list fnode) :=
+           (acc : option (list fnode * list string)) (s : sel) : option (list fnode * list string) :=
   match acc with
   | None => None
-  | Some l =>
+  | Some (l, ms) =>
       match s with
-      | SField al n c ms sub => Some (l ++ [fnode_of al n c ms sub])
+      | SField al n c mx sub => Some (l ++ [fnode_of al n c mx sub], ms)
       | SInline (Some tc) false sub =>
           match inline_root_type S tc r, type_applies S rt tc with
-          | Some r', true => match rec r' sub with Some l' => Some (l ++ l') | None => None end
-          | None, false => Some l
+          | Some r', true => match rec r' sub with
+                             | Some (l', ms') => Some (l ++ l', ms ++ ms') | None => None end
+          | None, false => Some (l, ms)
           | _, _ => None
           end
       | SSpread n false =>
@@ -372,10 +374,11 @@ Definition flatten_step (rec : string -> list sel -> option (list fnode))
                   if unpack_fragment S f (Some r) then
                     if String.eqb (fr_on f) r || (is_abstract fd && is_sub_type S (fr_on f) r)
                     then (if type_applies S rt (fr_on f)
-                          then match rec r (fr_sel f) with Some l' => Some (l ++ l') | None => None end
+                          then match rec r (fr_sel f) with
+                               | Some (l', ms') => Some (l ++ l', ms ++ ms') | None => None end
                           else None)
-                    else (if type_applies S rt (fr_on f) then None else Some l)
-                  else None
+                    else (if type_applies S rt (fr_on f) then None else Some (l, ms))
+                  else (if type_applies S rt (fr_on f) then Some (l, ms ++ [n]) else None)
               | _, _ => None
               end
           | None => None
@@ -384,14 +387,14 @@ Definition flatten_step (rec : string -> list sel -> option (list fnode))
       end
   end.
 
-Fixpoint flatten (fuel : nat) (S : schema) (frs : list fragdef) (rt r : string) (sels : list sel)
-  : option (list fnode) :=
+Fixpoint flattenM (fuel : nat) (S : schema) (frs : list fragdef) (rt r : string) (sels : list sel)
+  : option (list fnode * list string) :=
   match fuel with
   | O => None
-  | Datatypes.S g => fold_left (flatten_step (flatten g S frs rt) S frs rt r) sels (Some [])
+  | Datatypes.S g => fold_left (flattenM_step (flattenM g S frs rt) S frs rt r) sels (Some ([], []))
   end.
 
-Lemma flatten_fold_none rec S frs rt r sels : fold_left (flatten_step rec S frs rt r) sels None = None.
+Lemma flattenM_fold_none rec S frs rt r sels : fold_left (flattenM_step rec S frs rt r) sels None = None.
 Proof. induction sels; simpl; auto. Qed.
 
 Lemma resolve_fold_err rec S frs r sels m : fold_left (resolve_step rec S frs r) sels (Err m) = Err m.
@@ -404,162 +407,296 @@ Proof. induction sels; simpl; auto. Qed.
 Section Agree.
   Variables (S : schema) (frs : list fragdef) (rt : string).
 
-  (* resolve: whenever it succeeds it returns the flattened fields and no mixin *)
-  Lemma flatten_resolve_det : forall g f r sels fns x,
-    flatten g S frs rt r sels = Some fns -> resolve f S frs sels r = Ok x -> x = (fns, []).
+  Ltac kill Hf := rewrite flattenM_fold_none in Hf; discriminate Hf.
+
+  (* resolve: whenever it succeeds it returns the flattened fields and the recorded mixins *)
+  Lemma flattenM_resolve_det : forall g f r sels x0 x,
+    flattenM g S frs rt r sels = Some x0 -> resolve f S frs sels r = Ok x -> x = x0.
   Proof.
-    induction g as [|g IH]; intros f r sels fns x Hf Hr; [discriminate Hf|].
+    induction g as [|g IH]; intros f r sels x0 x Hf Hr; [discriminate Hf|].
     destruct f as [|f]; [discriminate Hr|]. simpl in Hf, Hr.
-    assert (G : forall sels l1 l0 m0 fns x,
-              fold_left (flatten_step (flatten g S frs rt) S frs rt r) sels (Some l1) = Some fns ->
+    assert (G : forall sels l1 m1 l0 m0 x0 x,
+              fold_left (flattenM_step (flattenM g S frs rt) S frs rt r) sels (Some (l1, m1)) = Some x0 ->
               fold_left (resolve_step (resolve f S frs) S frs r) sels (Ok (l0, m0)) = Ok x ->
-              exists d, fns = l1 ++ d /\ x = (l0 ++ d, m0)).
-    { clear Hf Hr fns x sels. induction sels as [|s sels IHs]; intros l1 l0 m0 fns x Hf Hr; simpl in Hf, Hr.
-      - inversion Hf; inversion Hr; subst. exists []. rewrite !app_nil_r. auto.
+              exists d e, x0 = (l1 ++ d, m1 ++ e) /\ x = (l0 ++ d, m0 ++ e)).
+    { clear Hf Hr x0 x sels. induction sels as [|s sels IHs]; intros l1 m1 l0 m0 x0 x Hf Hr; simpl in Hf, Hr.
+      - inversion Hf; inversion Hr; subst. exists [], []. rewrite !app_nil_r. auto.
       - destruct s as [al n c ms sub | n c | tc c sub].
-        + simpl in Hf, Hr. destruct (IHs _ _ _ _ _ Hf Hr) as [d [H1 H2]].
-          exists (fnode_of al n c ms sub :: d). subst. rewrite <- !app_assoc. auto.
-        + simpl in Hf, Hr. destruct c; [rewrite flatten_fold_none in Hf; discriminate|].
-          destruct (lookup_frag frs n) as [fd|]; [| rewrite flatten_fold_none in Hf; discriminate].
-          destruct (lookup_type S r) as [dr|]; [| rewrite flatten_fold_none in Hf; discriminate].
-          destruct (lookup_type S (fr_on fd)) as [df|]; [| rewrite flatten_fold_none in Hf; discriminate].
-          destruct (unpack_fragment S fd (Some r)); [| rewrite flatten_fold_none in Hf; discriminate].
-          simpl in Hr.
-          destruct (String.eqb (fr_on fd) r || (is_abstract df && is_sub_type S (fr_on fd) r)).
-          * destruct (type_applies S rt (fr_on fd)); [| rewrite flatten_fold_none in Hf; discriminate].
-            destruct (flatten g S frs rt r (fr_sel fd)) as [l'|] eqn:El;
-              [| rewrite flatten_fold_none in Hf; discriminate].
-            destruct (resolve f S frs (fr_sel fd) r) as [q|m] eqn:Eq; simpl in Hr;
-              [| rewrite resolve_fold_err in Hr; discriminate].
-            rewrite (IH _ _ _ _ _ El Eq) in Hr. simpl in Hr. rewrite app_nil_r in Hr.
-            destruct (IHs _ _ _ _ _ Hf Hr) as [d [H1 H2]]. exists (l' ++ d). subst. rewrite <- !app_assoc. auto.
-          * destruct (type_applies S rt (fr_on fd)); [rewrite flatten_fold_none in Hf; discriminate|].
-            apply (IHs _ _ _ _ _ Hf Hr).
-        + simpl in Hf, Hr. destruct tc as [tc|]; [| rewrite flatten_fold_none in Hf; discriminate].
-          destruct c; [rewrite flatten_fold_none in Hf; discriminate|].
+        + simpl in Hf, Hr. destruct (IHs _ _ _ _ _ _ Hf Hr) as [d [e [H1 H2]]].
+          exists (fnode_of al n c ms sub :: d), e. subst. rewrite <- !app_assoc. auto.
+        + simpl in Hf, Hr. destruct c; [kill Hf|].
+          destruct (lookup_frag frs n) as [fd|]; [| kill Hf].
+          destruct (lookup_type S r) as [dr|]; [| kill Hf].
+          destruct (lookup_type S (fr_on fd)) as [df|]; [| kill Hf].
+          destruct (unpack_fragment S fd (Some r)); simpl in Hr.
+          * destruct (String.eqb (fr_on fd) r || (is_abstract df && is_sub_type S (fr_on fd) r)).
+            -- destruct (type_applies S rt (fr_on fd)); [| kill Hf].
+               destruct (flattenM g S frs rt r (fr_sel fd)) as [[l' ms']|] eqn:El; [| kill Hf].
+               destruct (resolve f S frs (fr_sel fd) r) as [q|m] eqn:Eq; simpl in Hr;
+                 [| rewrite resolve_fold_err in Hr; discriminate].
+               rewrite (IH _ _ _ _ _ El Eq) in Hr. simpl in Hr.
+               destruct (IHs _ _ _ _ _ _ Hf Hr) as [d [e [H1 H2]]]. exists (l' ++ d), (ms' ++ e). subst.
+               rewrite <- !app_assoc. auto.
+            -- destruct (type_applies S rt (fr_on fd)); [kill Hf|].
+               apply (IHs _ _ _ _ _ _ Hf Hr).
+          * destruct (type_applies S rt (fr_on fd)); [| kill Hf].
+            destruct (IHs _ _ _ _ _ _ Hf Hr) as [d [e [H1 H2]]]. exists d, (n :: e). subst.
+            rewrite <- !app_assoc. auto.
+        + simpl in Hf, Hr. destruct tc as [tc|]; [| kill Hf].
+          destruct c; [kill Hf|].
           destruct (inline_root_type S tc r) as [r'|].
-          * destruct (type_applies S rt tc); [| rewrite flatten_fold_none in Hf; discriminate].
-            destruct (flatten g S frs rt r' sub) as [l'|] eqn:El;
-              [| rewrite flatten_fold_none in Hf; discriminate].
+          * destruct (type_applies S rt tc); [| kill Hf].
+            destruct (flattenM g S frs rt r' sub) as [[l' ms']|] eqn:El; [| kill Hf].
             destruct (resolve f S frs sub r') as [q|m] eqn:Eq; simpl in Hr;
               [| rewrite resolve_fold_err in Hr; discriminate].
-            rewrite (IH _ _ _ _ _ El Eq) in Hr. simpl in Hr. rewrite app_nil_r in Hr.
-            destruct (IHs _ _ _ _ _ Hf Hr) as [d [H1 H2]]. exists (l' ++ d). subst. rewrite <- !app_assoc. auto.
-          * destruct (type_applies S rt tc); [rewrite flatten_fold_none in Hf; discriminate|].
-            apply (IHs _ _ _ _ _ Hf Hr). }
-    destruct (G _ _ _ _ _ _ Hf Hr) as [d [H1 H2]]. simpl in *. subst. reflexivity.
+            rewrite (IH _ _ _ _ _ El Eq) in Hr. simpl in Hr.
+            destruct (IHs _ _ _ _ _ _ Hf Hr) as [d [e [H1 H2]]]. exists (l' ++ d), (ms' ++ e). subst.
+            rewrite <- !app_assoc. auto.
+          * destruct (type_applies S rt tc); [kill Hf|].
+            apply (IHs _ _ _ _ _ _ Hf Hr). }
+    destruct (G _ _ _ _ _ _ _ Hf Hr) as [d [e [H1 H2]]]. simpl in *. subst. reflexivity.
   Qed.
 
-  Ltac kill Hf := rewrite flatten_fold_none in Hf; discriminate Hf.
-
-  (* collect: whenever it succeeds it returns the nodes of the flattened fields *)
-  Lemma flatten_collect_det : forall g f r under sels fns l,
-    flatten g S frs rt r sels = Some fns -> collect f S frs rt under sels = Some l ->
-    l = map (node_of_fnode under) fns.
+  (* collect: without a mixin, whenever it succeeds it returns the nodes of the flattened fields *)
+  Lemma flattenM_collect_det : forall g f r under sels fns ms l,
+    flattenM g S frs rt r sels = Some (fns, ms) -> collect f S frs rt under sels = Some l ->
+    ms = [] -> l = map (node_of_fnode under) fns.
   Proof.
-    induction g as [|g IH]; intros f r under sels fns l Hf Hc; [discriminate Hf|].
+    induction g as [|g IH]; intros f r under sels fns ms l Hf Hc Hm; [discriminate Hf|].
     destruct f as [|f]; [discriminate Hc|]. simpl in Hf, Hc.
-    assert (G : forall sels l1 l0 fns l,
-              fold_left (flatten_step (flatten g S frs rt) S frs rt r) sels (Some l1) = Some fns ->
+    assert (G : forall sels l1 m1 l0 x0 l,
+              fold_left (flattenM_step (flattenM g S frs rt) S frs rt r) sels (Some (l1, m1)) = Some x0 ->
               fold_left (collect_step (collect f S frs rt) S frs rt under) sels (Some l0) = Some l ->
-              exists d, fns = l1 ++ d /\ l = l0 ++ map (node_of_fnode under) d).
-    { clear Hf Hc fns l sels. induction sels as [|s sels IHs]; intros l1 l0 fns l Hf Hc; simpl in Hf, Hc.
-      - inversion Hf; inversion Hc; subst. exists []. simpl. rewrite !app_nil_r. auto.
+              exists d e, x0 = (l1 ++ d, m1 ++ e) /\ (e = [] -> l = l0 ++ map (node_of_fnode under) d)).
+    { clear Hf Hc Hm fns ms l sels. induction sels as [|s sels IHs]; intros l1 m1 l0 x0 l Hf Hc; simpl in Hf, Hc.
+      - inversion Hf; inversion Hc; subst. exists [], []. simpl. rewrite !app_nil_r. auto.
       - destruct s as [al n c ms sub | n c | tc c sub].
-        + simpl in Hf, Hc. destruct (IHs _ _ _ _ Hf Hc) as [d [H1 H2]].
-          exists (fnode_of al n c ms sub :: d). subst. simpl. rewrite <- !app_assoc. auto.
+        + simpl in Hf, Hc. destruct (IHs _ _ _ _ _ Hf Hc) as [d [e [H1 H2]]].
+          exists (fnode_of al n c ms sub :: d), e. subst. simpl. rewrite <- !app_assoc. split; [reflexivity|].
+          intro He. rewrite (H2 He), <- app_assoc. reflexivity.
         + simpl in Hf, Hc. destruct c; [kill Hf|].
           destruct (lookup_frag frs n) as [fd|]; [| kill Hf].
           destruct (lookup_type S r) as [dr|]; [| kill Hf].
           destruct (lookup_type S (fr_on fd)) as [df|]; [| kill Hf].
-          destruct (unpack_fragment S fd (Some r)); [| kill Hf].
           rewrite orb_false_r in Hc.
-          destruct (String.eqb (fr_on fd) r || (is_abstract df && is_sub_type S (fr_on fd) r)).
+          destruct (unpack_fragment S fd (Some r)).
+          * destruct (String.eqb (fr_on fd) r || (is_abstract df && is_sub_type S (fr_on fd) r)).
+            -- destruct (type_applies S rt (fr_on fd)); [| kill Hf].
+               destruct (flattenM g S frs rt r (fr_sel fd)) as [[l' ms']|] eqn:El; [| kill Hf].
+               destruct (collect f S frs rt under (fr_sel fd)) as [q|] eqn:Eq;
+                 [| rewrite collect_fold_none in Hc; discriminate].
+               destruct (IHs _ _ _ _ _ Hf Hc) as [d [e [H1 H2]]]. exists (l' ++ d), (ms' ++ e). subst.
+               rewrite <- !app_assoc. split; [reflexivity|]. intro He. apply app_eq_nil in He as [He1 He2].
+               rewrite (H2 He2), (IH _ _ _ _ _ _ _ El Eq He1), map_app, <- !app_assoc. reflexivity.
+            -- destruct (type_applies S rt (fr_on fd)); [kill Hf|].
+               apply (IHs _ _ _ _ _ Hf Hc).
           * destruct (type_applies S rt (fr_on fd)); [| kill Hf].
-            destruct (flatten g S frs rt r (fr_sel fd)) as [l'|] eqn:El; [| kill Hf].
             destruct (collect f S frs rt under (fr_sel fd)) as [q|] eqn:Eq;
               [| rewrite collect_fold_none in Hc; discriminate].
-            rewrite (IH _ _ _ _ _ _ El Eq) in Hc.
-            destruct (IHs _ _ _ _ Hf Hc) as [d [H1 H2]]. exists (l' ++ d). subst.
-            rewrite map_app, <- !app_assoc. auto.
-          * destruct (type_applies S rt (fr_on fd)); [kill Hf|].
-            apply (IHs _ _ _ _ Hf Hc).
+            destruct (IHs _ _ _ _ _ Hf Hc) as [d [e [H1 H2]]]. exists d, (n :: e). subst.
+            rewrite <- !app_assoc. split; [reflexivity|]. intro He. discriminate He.
         + simpl in Hf, Hc. destruct tc as [tc|]; [| kill Hf].
           destruct c; [kill Hf|]. rewrite orb_false_r in Hc.
           destruct (inline_root_type S tc r) as [r'|].
           * destruct (type_applies S rt tc); [| kill Hf].
-            destruct (flatten g S frs rt r' sub) as [l'|] eqn:El; [| kill Hf].
+            destruct (flattenM g S frs rt r' sub) as [[l' ms']|] eqn:El; [| kill Hf].
             destruct (collect f S frs rt under sub) as [q|] eqn:Eq;
               [| rewrite collect_fold_none in Hc; discriminate].
-            rewrite (IH _ _ _ _ _ _ El Eq) in Hc.
-            destruct (IHs _ _ _ _ Hf Hc) as [d [H1 H2]]. exists (l' ++ d). subst.
-            rewrite map_app, <- !app_assoc. auto.
+            destruct (IHs _ _ _ _ _ Hf Hc) as [d [e [H1 H2]]]. exists (l' ++ d), (ms' ++ e). subst.
+            rewrite <- !app_assoc. split; [reflexivity|]. intro He. apply app_eq_nil in He as [He1 He2].
+            rewrite (H2 He2), (IH _ _ _ _ _ _ _ El Eq He1), map_app, <- !app_assoc. reflexivity.
           * destruct (type_applies S rt tc); [kill Hf|].
-            apply (IHs _ _ _ _ Hf Hc). }
-    destruct (G _ _ _ _ _ Hf Hc) as [d [H1 H2]]. simpl in *. subst. reflexivity.
+            apply (IHs _ _ _ _ _ Hf Hc). }
+    destruct (G _ _ _ _ _ _ Hf Hc) as [d [e [H1 H2]]]. simpl in H1. inversion H1; subst.
+    rewrite (H2 eq_refl). reflexivity.
   Qed.
 
-  (* with at least the guard's fuel both succeed *)
-  Lemma flatten_both_ex : forall g r sels fns,
-    flatten g S frs rt r sels = Some fns ->
-    forall f, f >= g ->
-      resolve f S frs sels r = Ok (fns, []) /\
-      (forall under, collect f S frs rt under sels = Some (map (node_of_fnode under) fns)).
+  (* collect with mixins: the nodes of the own fields, and the nodes of every mixin fragment, are among
+     the collected nodes *)
+  Lemma flattenM_collect_mix : forall g f r sels fns ms l,
+    flattenM g S frs rt r sels = Some (fns, ms) -> collect f S frs rt false sels = Some l ->
+    (forall x, In x fns -> In (node_of_fnode false x) l) /\
+    (forall m, In m ms -> exists fm k lm, lookup_frag frs m = Some fm /\
+                 collect k S frs rt false (fr_sel fm) = Some lm /\ incl lm l).
   Proof.
-    induction g as [|g IH]; intros r sels fns Hf f Hge; [discriminate Hf|].
+    induction g as [|g IH]; intros f r sels fns ms l Hf Hc; [discriminate Hf|].
+    destruct f as [|f]; [discriminate Hc|]. simpl in Hf, Hc.
+    set (PM := fun (l : list cnode) (m : string) =>
+                 exists fm k lm, lookup_frag frs m = Some fm /\
+                   collect k S frs rt false (fr_sel fm) = Some lm /\ incl lm l).
+    assert (PMmono : forall a b m, incl a b -> PM a m -> PM b m).
+    { intros a b m Hab [fm [k [lm [H1 [H2 H3]]]]]. exists fm, k, lm. repeat split; auto.
+      eapply incl_tran; eauto. }
+    assert (G : forall sels l1 m1 l0 fns ms l,
+              fold_left (flattenM_step (flattenM g S frs rt) S frs rt r) sels (Some (l1, m1)) = Some (fns, ms) ->
+              fold_left (collect_step (collect f S frs rt) S frs rt false) sels (Some l0) = Some l ->
+              incl l0 l /\
+              (forall x, In x fns -> In x l1 \/ In (node_of_fnode false x) l) /\
+              (forall m, In m ms -> In m m1 \/ PM l m)).
+    { clear Hf Hc fns ms l sels. induction sels as [|s sels IHs]; intros l1 m1 l0 fns ms l Hf Hc; simpl in Hf, Hc.
+      - inversion Hf; inversion Hc; subst. split; [apply incl_refl|]. split; auto.
+      - destruct s as [al n c mx sub | n c | tc c sub].
+        + simpl in Hf, Hc. destruct (IHs _ _ _ _ _ _ Hf Hc) as [I0 [I1 I2]].
+          split; [eapply incl_tran; [apply incl_appl, incl_refl | exact I0]|]. split; [| exact I2].
+          intros x Hx. destruct (I1 x Hx) as [H | H]; [| right; exact H].
+          apply in_app_or in H. destruct H as [H | [H | []]]; [left; exact H|]. subst x. right.
+          apply I0. apply in_or_app. right. left. reflexivity.
+        + simpl in Hf, Hc. destruct c; [kill Hf|].
+          destruct (lookup_frag frs n) as [fd|] eqn:Elf; [| kill Hf].
+          destruct (lookup_type S r) as [dr|]; [| kill Hf].
+          destruct (lookup_type S (fr_on fd)) as [df|]; [| kill Hf].
+          destruct (unpack_fragment S fd (Some r)).
+          * destruct (String.eqb (fr_on fd) r || (is_abstract df && is_sub_type S (fr_on fd) r)).
+            -- destruct (type_applies S rt (fr_on fd)); [| kill Hf].
+               destruct (flattenM g S frs rt r (fr_sel fd)) as [[l' ms']|] eqn:El; [| kill Hf].
+               destruct (collect f S frs rt false (fr_sel fd)) as [q|] eqn:Eq;
+                 [| rewrite collect_fold_none in Hc; discriminate].
+               destruct (IH _ _ _ _ _ _ El Eq) as [J1 J2].
+               destruct (IHs _ _ _ _ _ _ Hf Hc) as [I0 [I1 I2]].
+               assert (Hq : incl q l) by (eapply incl_tran; [apply incl_appr, incl_refl | exact I0]).
+               split; [eapply incl_tran; [apply incl_appl, incl_refl | exact I0]|]. split.
+               ++ intros x Hx. destruct (I1 x Hx) as [H | H]; [| right; exact H].
+                  apply in_app_or in H. destruct H as [H | H]; [left; exact H | right; apply Hq, J1, H].
+               ++ intros m Hm. destruct (I2 m Hm) as [H | H]; [| right; exact H].
+                  apply in_app_or in H. destruct H as [H | H]; [left; exact H | right].
+                  eapply PMmono; [exact Hq | apply J2, H].
+            -- destruct (type_applies S rt (fr_on fd)); [kill Hf|].
+               apply (IHs _ _ _ _ _ _ Hf Hc).
+          * destruct (type_applies S rt (fr_on fd)); [| kill Hf].
+            destruct (collect f S frs rt false (fr_sel fd)) as [q|] eqn:Eq;
+              [| rewrite collect_fold_none in Hc; discriminate].
+            destruct (IHs _ _ _ _ _ _ Hf Hc) as [I0 [I1 I2]].
+            assert (Hq : incl q l) by (eapply incl_tran; [apply incl_appr, incl_refl | exact I0]).
+            split; [eapply incl_tran; [apply incl_appl, incl_refl | exact I0]|]. split; [exact I1|].
+            intros m Hm. destruct (I2 m Hm) as [H | H]; [| right; exact H].
+            apply in_app_or in H. destruct H as [H | [H | []]]; [left; exact H|]. subst m. right.
+            exists fd, f, q. auto.
+        + simpl in Hf, Hc. destruct tc as [tc|]; [| kill Hf].
+          destruct c; [kill Hf|].
+          destruct (inline_root_type S tc r) as [r'|].
+          * destruct (type_applies S rt tc); [| kill Hf].
+            destruct (flattenM g S frs rt r' sub) as [[l' ms']|] eqn:El; [| kill Hf].
+            destruct (collect f S frs rt false sub) as [q|] eqn:Eq;
+              [| rewrite collect_fold_none in Hc; discriminate].
+            destruct (IH _ _ _ _ _ _ El Eq) as [J1 J2].
+            destruct (IHs _ _ _ _ _ _ Hf Hc) as [I0 [I1 I2]].
+            assert (Hq : incl q l) by (eapply incl_tran; [apply incl_appr, incl_refl | exact I0]).
+            split; [eapply incl_tran; [apply incl_appl, incl_refl | exact I0]|]. split.
+            -- intros x Hx. destruct (I1 x Hx) as [H | H]; [| right; exact H].
+               apply in_app_or in H. destruct H as [H | H]; [left; exact H | right; apply Hq, J1, H].
+            -- intros m Hm. destruct (I2 m Hm) as [H | H]; [| right; exact H].
+               apply in_app_or in H. destruct H as [H | H]; [left; exact H | right].
+               eapply PMmono; [exact Hq | apply J2, H].
+          * destruct (type_applies S rt tc); [kill Hf|].
+            apply (IHs _ _ _ _ _ _ Hf Hc). }
+    destruct (G _ _ _ _ _ _ _ Hf Hc) as [_ [G1 G2]]. split.
+    - intros x Hx. destruct (G1 x Hx) as [[] | H]. exact H.
+    - intros m Hm. destruct (G2 m Hm) as [[] | H]. exact H.
+  Qed.
+
+  (* with at least the guard's fuel resolve succeeds, and so does collect when there is no mixin *)
+  Lemma flattenM_both_ex : forall g r sels fns ms,
+    flattenM g S frs rt r sels = Some (fns, ms) ->
+    forall f, f >= g ->
+      resolve f S frs sels r = Ok (fns, ms) /\
+      (ms = [] -> forall under, collect f S frs rt under sels = Some (map (node_of_fnode under) fns)).
+  Proof.
+    induction g as [|g IH]; intros r sels fns ms Hf f Hge; [discriminate Hf|].
     destruct f as [|f]; [lia|]. assert (Hge' : f >= g) by lia. simpl in Hf. simpl.
-    assert (G : forall sels l1 fns,
-              fold_left (flatten_step (flatten g S frs rt) S frs rt r) sels (Some l1) = Some fns ->
-              exists d, fns = l1 ++ d /\
+    assert (G : forall sels l1 m1 x0,
+              fold_left (flattenM_step (flattenM g S frs rt) S frs rt r) sels (Some (l1, m1)) = Some x0 ->
+              exists d e, x0 = (l1 ++ d, m1 ++ e) /\
                 (forall l0 m0, fold_left (resolve_step (resolve f S frs) S frs r) sels (Ok (l0, m0))
-                               = Ok (l0 ++ d, m0)) /\
-                (forall under l0, fold_left (collect_step (collect f S frs rt) S frs rt under) sels (Some l0)
-                                  = Some (l0 ++ map (node_of_fnode under) d))).
-    { clear Hf fns sels. induction sels as [|s sels IHs]; intros l1 fns Hf; simpl in Hf.
-      - inversion Hf; subst. exists []. simpl. split; [rewrite app_nil_r; reflexivity|].
-        split; intros; rewrite app_nil_r; reflexivity.
-      - destruct s as [al n c ms sub | n c | tc c sub].
-        + simpl in Hf. destruct (IHs _ _ Hf) as [d [H1 [H2 H3]]].
-          exists (fnode_of al n c ms sub :: d). subst. split; [rewrite <- app_assoc; reflexivity|].
-          split; intros; simpl; [rewrite H2 | rewrite H3]; rewrite <- app_assoc; reflexivity.
+                               = Ok (l0 ++ d, m0 ++ e)) /\
+                (e = [] -> forall under l0,
+                     fold_left (collect_step (collect f S frs rt) S frs rt under) sels (Some l0)
+                     = Some (l0 ++ map (node_of_fnode under) d))).
+    { clear Hf fns ms sels. induction sels as [|s sels IHs]; intros l1 m1 x0 Hf; simpl in Hf.
+      - inversion Hf; subst. exists [], []. simpl. rewrite !app_nil_r. split; [reflexivity|].
+        split; intros; rewrite ?app_nil_r; reflexivity.
+      - destruct s as [al n c mx sub | n c | tc c sub].
+        + simpl in Hf. destruct (IHs _ _ _ Hf) as [d [e [H1 [H2 H3]]]].
+          exists (fnode_of al n c mx sub :: d), e. subst. split; [rewrite <- app_assoc; reflexivity|].
+          split; intros; simpl; [rewrite H2 | rewrite H3 by assumption]; rewrite <- app_assoc; reflexivity.
         + simpl in Hf. destruct c; [kill Hf|].
           destruct (lookup_frag frs n) as [fd|] eqn:Elf; [| kill Hf].
           destruct (lookup_type S r) as [dr|] eqn:Elr; [| kill Hf].
           destruct (lookup_type S (fr_on fd)) as [df|] eqn:Elo; [| kill Hf].
-          destruct (unpack_fragment S fd (Some r)) eqn:Eu; [| kill Hf].
-          destruct (String.eqb (fr_on fd) r || (is_abstract df && is_sub_type S (fr_on fd) r)) eqn:Eb.
+          destruct (unpack_fragment S fd (Some r)) eqn:Eu.
+          * destruct (String.eqb (fr_on fd) r || (is_abstract df && is_sub_type S (fr_on fd) r)) eqn:Eb.
+            -- destruct (type_applies S rt (fr_on fd)) eqn:Et; [| kill Hf].
+               destruct (flattenM g S frs rt r (fr_sel fd)) as [[l' ms']|] eqn:El; [| kill Hf].
+               destruct (IH _ _ _ _ El f Hge') as [R1 R2].
+               destruct (IHs _ _ _ Hf) as [d [e [H1 [H2 H3]]]]. exists (l' ++ d), (ms' ++ e). subst.
+               split; [rewrite <- !app_assoc; reflexivity|].
+               split.
+               ++ intros; simpl. rewrite Elf, Elr, Elo, Eu, Eb, R1. simpl. rewrite H2, <- !app_assoc. reflexivity.
+               ++ intros He under l0. apply app_eq_nil in He as [He1 He2]. simpl.
+                  rewrite Elf, Et, orb_false_r, (R2 He1), (H3 He2), map_app, <- app_assoc. reflexivity.
+            -- destruct (type_applies S rt (fr_on fd)) eqn:Et; [kill Hf|].
+               destruct (IHs _ _ _ Hf) as [d [e [H1 [H2 H3]]]]. exists d, e. split; [exact H1|].
+               split.
+               ++ intros; simpl. rewrite Elf, Elr, Elo, Eu, Eb. simpl. apply H2.
+               ++ intros He under l0. simpl. rewrite Elf, Et. apply H3, He.
           * destruct (type_applies S rt (fr_on fd)) eqn:Et; [| kill Hf].
-            destruct (flatten g S frs rt r (fr_sel fd)) as [l'|] eqn:El; [| kill Hf].
-            destruct (IH _ _ _ El f Hge') as [R1 R2].
-            destruct (IHs _ _ Hf) as [d [H1 [H2 H3]]]. exists (l' ++ d). subst.
-            split; [rewrite <- app_assoc; reflexivity|].
-            split; intros; simpl; rewrite Elf.
-            -- rewrite Elr, Elo, Eu, Eb, R1. simpl. rewrite app_nil_r, H2, <- app_assoc. reflexivity.
-            -- rewrite Et, orb_false_r, R2, H3, map_app, <- app_assoc. reflexivity.
-          * destruct (type_applies S rt (fr_on fd)) eqn:Et; [kill Hf|].
-            destruct (IHs _ _ Hf) as [d [H1 [H2 H3]]]. exists d. split; [exact H1|].
-            split; intros; simpl; rewrite Elf.
-            -- rewrite Elr, Elo, Eu, Eb. simpl. apply H2.
-            -- rewrite Et. apply H3.
+            destruct (IHs _ _ _ Hf) as [d [e [H1 [H2 H3]]]]. exists d, (n :: e). subst.
+            split; [rewrite <- !app_assoc; reflexivity|]. split.
+            -- intros; simpl. rewrite Elf, Elr, Elo, Eu. simpl. rewrite H2, <- !app_assoc. reflexivity.
+            -- intro He. discriminate He.
         + simpl in Hf. destruct tc as [tc|]; [| kill Hf]. destruct c; [kill Hf|].
           destruct (inline_root_type S tc r) as [r'|] eqn:Ei.
           * destruct (type_applies S rt tc) eqn:Et; [| kill Hf].
-            destruct (flatten g S frs rt r' sub) as [l'|] eqn:El; [| kill Hf].
-            destruct (IH _ _ _ El f Hge') as [R1 R2].
-            destruct (IHs _ _ Hf) as [d [H1 [H2 H3]]]. exists (l' ++ d). subst.
-            split; [rewrite <- app_assoc; reflexivity|].
-            split; intros; simpl.
-            -- rewrite Ei, R1. simpl. rewrite app_nil_r, H2, <- app_assoc. reflexivity.
-            -- rewrite Et, orb_false_r, R2, H3, map_app, <- app_assoc. reflexivity.
+            destruct (flattenM g S frs rt r' sub) as [[l' ms']|] eqn:El; [| kill Hf].
+            destruct (IH _ _ _ _ El f Hge') as [R1 R2].
+            destruct (IHs _ _ _ Hf) as [d [e [H1 [H2 H3]]]]. exists (l' ++ d), (ms' ++ e). subst.
+            split; [rewrite <- !app_assoc; reflexivity|].
+            split.
+            -- intros; simpl. rewrite Ei, R1. simpl. rewrite H2, <- !app_assoc. reflexivity.
+            -- intros He under l0. apply app_eq_nil in He as [He1 He2]. simpl.
+               rewrite Et, orb_false_r, (R2 He1), (H3 He2), map_app, <- app_assoc. reflexivity.
           * destruct (type_applies S rt tc) eqn:Et; [kill Hf|].
-            destruct (IHs _ _ Hf) as [d [H1 [H2 H3]]]. exists d. split; [exact H1|].
-            split; intros; simpl.
-            -- rewrite Ei. apply H2.
-            -- rewrite Et. apply H3. }
-    destruct (G _ _ _ Hf) as [d [H1 [H2 H3]]]. simpl in H1. subst d.
-    split; [apply (H2 [] []) | intro under; apply (H3 under [])].
+            destruct (IHs _ _ _ Hf) as [d [e [H1 [H2 H3]]]]. exists d, e. split; [exact H1|].
+            split.
+            -- intros; simpl. rewrite Ei. apply H2.
+            -- intros He under l0. simpl. rewrite Et. apply H3, He. }
+    destruct (G _ _ _ _ Hf) as [d [e [H1 [H2 H3]]]]. simpl in H1. inversion H1; subst d e.
+    split; [apply (H2 [] []) | intros He under; apply (H3 He under [])].
   Qed.
 End Agree.
+
+(* ---- the mixin-free instance: both sides flatten to the same field list ---- *)
+Definition flatten (fuel : nat) (S : schema) (frs : list fragdef) (rt r : string) (sels : list sel)
+  : option (list fnode) :=
+  match flattenM fuel S frs rt r sels with
+  | Some (fns, []) => Some fns
+  | _ => None
+  end.
+
+Lemma flatten_M fuel S frs rt r sels fns :
+  flatten fuel S frs rt r sels = Some fns <-> flattenM fuel S frs rt r sels = Some (fns, []).
+Proof.
+  unfold flatten. destruct (flattenM fuel S frs rt r sels) as [[l [|m ms]]|]; split; intro H;
+    try discriminate H; inversion H; reflexivity.
+Qed.
+
+Lemma flatten_resolve_det S frs rt g f r sels fns x :
+  flatten g S frs rt r sels = Some fns -> resolve f S frs sels r = Ok x -> x = (fns, []).
+Proof. intros H Hr. apply flatten_M in H. eapply flattenM_resolve_det; eauto. Qed.
+
+Lemma flatten_collect_det S frs rt g f r under sels fns l :
+  flatten g S frs rt r sels = Some fns -> collect f S frs rt under sels = Some l ->
+  l = map (node_of_fnode under) fns.
+Proof. intros H Hc. apply flatten_M in H. eapply flattenM_collect_det; eauto. Qed.
+
+Lemma flatten_both_ex S frs rt g r sels fns :
+  flatten g S frs rt r sels = Some fns ->
+  forall f, f >= g ->
+    resolve f S frs sels r = Ok (fns, []) /\
+    (forall under, collect f S frs rt under sels = Some (map (node_of_fnode under) fns)).
+Proof.
+  intros H f Hge. apply flatten_M in H. destruct (flattenM_both_ex S frs rt _ _ _ _ _ H f Hge) as [R1 R2].
+  split; [exact R1 | apply R2; reflexivity].
+Qed.
 
 Lemma flatten_det S frs rt r sels g1 g2 a b :
   flatten g1 S frs rt r sels = Some a -> flatten g2 S frs rt r sels = Some b -> a = b.
@@ -574,14 +711,15 @@ Qed.
 Lemma flatten_fields_only S frs rt r g sels :
   fields_only sels = true -> flatten (Datatypes.S g) S frs rt r sels = Some (fnodes_of sels).
 Proof.
-  simpl.
-  assert (G : forall l0, fields_only sels = true ->
-            fold_left (flatten_step (flatten g S frs rt) S frs rt r) sels (Some l0) = Some (l0 ++ fnodes_of sels)).
-  { induction sels as [|s sels IH]; intros l0 H; simpl.
+  intro H. apply flatten_M. simpl.
+  assert (G : forall l0 m0, fields_only sels = true ->
+            fold_left (flattenM_step (flattenM g S frs rt) S frs rt r) sels (Some (l0, m0))
+            = Some (l0 ++ fnodes_of sels, m0)).
+  { induction sels as [|s sels IH]; intros l0 m0 H0; simpl.
     - rewrite app_nil_r. reflexivity.
-    - simpl in H. apply andb_true_iff in H as [H1 H2]. destruct s; try discriminate.
+    - simpl in H0. apply andb_true_iff in H0 as [H1 H2]. destruct s; try discriminate.
       simpl. rewrite IH; auto. rewrite <- app_assoc. reflexivity. }
-  intro H. apply (G [] H).
+  apply (G [] [] H).
 Qed.
 
 Lemma collect_scopes_flat S frs rt fc sels g r fns l :
